@@ -367,13 +367,16 @@ pub fn pair_alphabets(n: usize, thorough: bool) -> Vec<(String, Vec<Vec<u32>>)> 
 }
 
 /// Shard k of n of the pair histories for hand size `nc`.
-pub fn sharded_pairs(rep: &mut Report, nc: usize, witness: bool, thorough: bool, k: usize, n: usize) {
+pub fn sharded_pairs(rep: &mut Report, nc: usize, witness: bool, thorough: bool, lean: bool, k: usize, n: usize) {
     let mode = if witness { "witness" } else { "value" };
     let mut entries: Vec<&str> = if witness { vec!["hand_rank_value_and_hand"] } else { vec!["hand_rank_value", "hand_rank_value_validated", "hand_rank_value_and_hand"] };
     if !witness && nc == 5 {
         entries.push("evaluate.five_cards");
     }
     for (name, hands) in pair_alphabets(nc, thorough) {
+        if lean && hands.len() > 1100 {
+            continue; // lean run (unoptimised crate): the smaller alphabets only
+        }
         let t0 = Instant::now();
         let kind = monitor::kind_id(&format!("history.{}", mode));
         let accs = par_parts(1, |_| {
